@@ -1295,6 +1295,18 @@ func checkC02(P *Program, r *Result, tier string) {
 		}
 	}
 	tightRulesA(P, r, "TIGHT", spanFns, trun.A)
+	// "for any fragmentation of the stream": the stream skippers and decoders rest on the buffered reader handing
+	// them exactly the bytes asked for — the reader rules of C04 are re-run here
+	{
+		tmp := newResult(r.Prop)
+		checkC04(P, tmp, tier)
+		r.Fatal = append(r.Fatal, tmp.Fatal...)
+		for _, o := range tmp.Obls {
+			o.Rule = r.Prop + "/STREAM-" + o.Rule[strings.Index(o.Rule, "/")+1:]
+			r.Obls = append(r.Obls, o)
+			r.Funcs[o.Func] = true
+		}
+	}
 	c02Decoders(P, r)
 }
 
@@ -1468,6 +1480,16 @@ func c02Decoders(P *Program, r *Result) {
 					okOff := fa.proveEq(sd.Off, c0, blk)
 					okW = okLen && okOff
 					detail = fmt.Sprintf("offset %s, length %s", A.linString(sd.Off), A.linString(sd.Len))
+					// … and lies inside the *length* of what it is sliced from when that is the decoder's own byte
+					// slice (capacity beyond the length holds nothing of the input): a strict prefix must fail instead
+					if okW && d.typ == "BytesSkipDecoder" {
+						if root, isLd := sd.Root.(*ssa.UnOp); isLd && root.Op == token.MUL && recvFieldOf(sk, root.X) == d.backing {
+							if bd := fa.sliceDesc(root); bd != nil && !fa.prove(ineqLE(sd.Off.add(sd.Len), bd.Len), blk, rootCtx) {
+								okW = false
+								detail = "the window is not known to end inside len(" + d.backing + "): bytes beyond the input would be taken for a value that is cut short"
+							}
+						}
+					}
 				}
 				r.add("ACCUM", shortName(sk), "window", "on success the returned slice is the n bytes following the bytes already accumulated", P.pos(instrPos(rc.ret)), okW, detail)
 			} else {
@@ -1505,6 +1527,74 @@ func c02Decoders(P *Program, r *Result) {
 				}
 			}
 			r.require("ReaderSkipDecoder.SkipN: call of io.Reader.Read", nread > 0)
+			// ROOM: what SkipN slices lies inside the buffer's *length* (not merely its capacity): every function of the
+			// decoder that is asked for room for n more bytes returns with len(b) − counter ≥ n, itself or through
+			// another such function called with the same n
+			{
+				roomFns := map[*ssa.Function]bool{}
+				var collect func(f *ssa.Function, depth int)
+				collect = func(f *ssa.Function, depth int) {
+					if depth > 3 {
+						return
+					}
+					for _, c := range callsIn(f) {
+						cal := c.Common().StaticCallee()
+						if cal == nil || !inRepo(cal) || cal.Blocks == nil || roomFns[cal] || cal == sk {
+							continue
+						}
+						if len(cal.Params) == 2 && cal.Signature.Recv() != nil && isPlainInt(cal.Params[1].Type()) && cal.Signature.Results().Len() == 0 &&
+							len(c.Common().Args) == 2 && c.Common().Args[0] == ssa.Value(f.Params[0]) {
+							roomFns[cal] = true
+							collect(cal, depth+1)
+						}
+					}
+				}
+				collect(sk, 0)
+				nroom := 0
+				for g := range roomFns {
+					ga := A.fa(g)
+					for _, c := range callsIn(g) {
+						if cc, ok := c.(*ssa.Call); ok {
+							ga.externalAllocFacts(cc)
+						}
+					}
+					ga.ensureInvariants()
+					want := ga.expand(g.Params[1])
+					for _, ret := range returnsOf(g) {
+						nroom++
+						okRoom, why := false, ""
+						// delegated to another room function with the same n, nothing stored in between
+						for _, c := range callsIn(g) {
+							cc, isCall := c.(*ssa.Call)
+							if !isCall || !roomFns[c.Common().StaticCallee()] || !instrDominates(cc, ret) {
+								continue
+							}
+							if len(cc.Common().Args) == 2 && cc.Common().Args[0] == ssa.Value(g.Params[0]) && cc.Common().Args[1] == ssa.Value(g.Params[1]) {
+								clean := true
+								for _, st := range append(storesTo(g, d.backing), storesTo(g, d.counter)...) {
+									if instrDominates(cc, st) {
+										clean = false
+									}
+								}
+								if clean {
+									okRoom = true
+								}
+							}
+						}
+						if !okRoom {
+							bd := cellSliceAt(ga, ret, d.backing)
+							nc := cellIntAt(ga, ret, d.counter)
+							if bd != nil && nc != nil && ga.prove(ineqLE(nc.add(want), bd.Len), ret.Block(), rootCtx) {
+								okRoom = true
+							} else {
+								why = "at this return the buffer's length is not known to cover the accumulated bytes plus n (capacity beyond the length does not hold the bytes accumulated so far)"
+							}
+						}
+						r.add("IOREADER", shortName(g), "room", "returns with len(buffer) − accumulated ≥ n", P.pos(instrPos(ret)), okRoom, why)
+					}
+				}
+				r.require("ReaderSkipDecoder: a room-making function called by SkipN", nroom > 0)
+			}
 			for _, c := range callsIn(sk) {
 				if !isInvokeOf(c, "Read") {
 					continue
